@@ -711,7 +711,38 @@ def targeted_sets(seed):
     out.append(('cycle:patch-vs-include', {'alpha': M([('test', M([('__patch', S('sometimes?')), ('home', S('excited')),
                                                                     ('work', M([('__include', S('/test/home'))]))])),
                                                         ('sometimes', M([('home', S('naive'))]))])}))
+    # 8. a .custom file whose base document does not exist, referenced more than once
+    docs = {'alpha': M([('t', M([('__include', S('miss:/q?')), ('k', w())])), ('u', M([('__include', S('miss:/q?'))])),
+                        ('v', M([('__patch', S('miss:/q?')), ('k', w())]))]),
+            'miss.custom': M([('patch', M([('q', M([('from', S('custom'))]))]))])}
+    out.append(('custom-without-base:twice', docs))
+    docs = {'alpha': M([('t', M([('__include', S('miss:/?'))])), ('u', M([('__include', S('miss:/?')), ('k', w())]))]),
+            'miss.custom': M([('patch', M([('q', w())]))])}
+    out.append(('custom-without-base:root', docs))
+    # 9. a directive directly inside a patch literal (not inside one of its values)
+    base2 = M([('p', M([('x', S('1'))]))])
+    out.append(('directive-in-patch-literal:map', {'base': base2,
+               'alpha': M([('t', M([('k', S('0')), ('__patch', M([('__include', S('base:/p')), ('a', S('1'))]))]))])}))
+    out.append(('directive-in-patch-literal:list', {'base': base2,
+               'alpha': M([('t', M([('k', S('0')), ('__patch', L([M([('__include', S('base:/p'))]), M([('b', S('2'))])]))]))])}))
     return out
+
+
+def has_directive_directly_in_patch_literal(docs):
+    def lit(v):
+        return v[0] == 'M' and any(k in ('__include', '__patch') for k, _ in v[1])
+
+    def walk(n):
+        if n[0] == 'L':
+            return any(walk(x) for x in n[1])
+        if n[0] == 'M':
+            for k, v in n[1]:
+                if k == '__patch' and (lit(v) or (v[0] == 'L' and any(lit(e) for e in v[1]))):
+                    return True
+                if walk(v):
+                    return True
+        return False
+    return any(walk(y) for y in docs.values())
 
 
 def to_json(docs):
